@@ -152,10 +152,10 @@ Theorem fifo_per_kind_partial :
   (forall b k e,
     (k = KNormal -> qn (fst (push_entry b k e)) = qn b ++ [e] /\ qi (fst (push_entry b k e)) = qi b) /\
     (k = KIntr -> qi (fst (push_entry b k e)) = qi b ++ [e] /\ qn (fst (push_entry b k e)) = qn b)) /\
-  (forall b oi batch b1, disp_lock b oi = (batch, b1) ->
-    (batch = qi b /\ qi b <> [] /\ qn b1 = qn b /\ qi b1 = []) \/
-    (qi b = [] /\ oi = true /\ batch = [] /\ qn b1 = qn b) \/
-    (qi b = [] /\ oi = false /\ batch = qn b /\ qn b1 = [] /\ qi b1 = [])).
+  (forall b oi batch b1 oi', disp_lock b oi = Some (batch, b1, oi') ->
+    exists ti tn : bool,
+      batch = (if ti then qi b else []) ++ (if tn then qn b else []) /\
+      qi b1 = (if ti then [] else qi b) /\ qn b1 = (if tn then [] else qn b)).
 Proof. split. exact ProofsE.push_appends. exact ProofsE.dispatch_takes_queue_in_order. Qed.
 Print Assumptions fifo_per_kind_partial.
 
